@@ -1724,6 +1724,127 @@ theorem sentinel_base (r : Record) : ∀ k ∈ G.sentinelBase, ((sentinel r).get
   simp only [VgiVerif.Gen.C34.sentinelBase, List.mem_cons, List.mem_nil_iff, or_false] at hk
   rcases hk with rfl | rfl | rfl | rfl | rfl | rfl | rfl | rfl | rfl | rfl | rfl | rfl | rfl | rfl | rfl | rfl | rfl <;> rfl
 
+/-! ### the written line -/
+
+abbrev Printable (c : Char) : Prop := 0x20 ≤ c.toNat ∧ c.toNat ≤ 0x7e
+
+theorem jsonAscii : G.jsonAsciiOnly = true := rfl
+
+theorem hexDigit_printable (n : Nat) (h : n < 16) : Printable (hexDigit n) := by
+  have : ∀ k : _root_.Fin 16, Printable (hexDigit k.val) := by decide
+  exact this ⟨n, h⟩
+
+theorem u4_printable (n : Nat) : ∀ c ∈ u4 n, Printable c := by
+  intro c hc
+  simp only [u4, List.mem_cons, List.mem_nil_iff, or_false] at hc
+  rcases hc with rfl | rfl | rfl | rfl | rfl | rfl
+  · decide
+  · decide
+  · exact hexDigit_printable _ (Nat.mod_lt _ (by decide))
+  · exact hexDigit_printable _ (Nat.mod_lt _ (by decide))
+  · exact hexDigit_printable _ (Nat.mod_lt _ (by decide))
+  · exact hexDigit_printable _ (Nat.mod_lt _ (by decide))
+
+theorem two_printable {a b : Char} (ha : Printable a) (hb : Printable b) : ∀ c ∈ [a, b], Printable c := by
+  intro c hc
+  simp only [List.mem_cons, List.mem_nil_iff, or_false] at hc
+  rcases hc with rfl | rfl
+  · exact ha
+  · exact hb
+
+/-- with `ensure_ascii` every character of a JSON string is written with printable ASCII only -/
+theorem escChar_printable (ch : Char) : ∀ c ∈ escChar true ch, Printable c := by
+  unfold escChar
+  split
+  · exact two_printable (by decide) (by decide)
+  split
+  · exact two_printable (by decide) (by decide)
+  split
+  · exact two_printable (by decide) (by decide)
+  split
+  · exact two_printable (by decide) (by decide)
+  split
+  · exact two_printable (by decide) (by decide)
+  split
+  · exact two_printable (by decide) (by decide)
+  split
+  · exact two_printable (by decide) (by decide)
+  split
+  · exact u4_printable _
+  rename_i h1 h2 h3 h4 h5 h6 h7 h8
+  split
+  · split
+    · exact u4_printable _
+    · intro c hc
+      rcases List.mem_append.mp hc with h | h
+      · exact u4_printable _ c h
+      · exact u4_printable _ c h
+  · rename_i h9
+    intro c hc
+    simp only [List.mem_singleton] at hc
+    subst hc
+    simp only [Bool.true_and, decide_eq_true_eq] at h9
+    exact ⟨by omega, by omega⟩
+
+theorem renderStr_printable (s : Str) : ∀ c ∈ renderStr true s, Printable c := by
+  intro c hc
+  simp only [renderStr, List.mem_append, List.mem_singleton, List.mem_flatMap] at hc
+  rcases hc with (rfl | ⟨ch, _, h⟩) | rfl
+  · decide
+  · exact escChar_printable ch c h
+  · decide
+
+/-- the tokens Python prints for numbers and nested objects are printable ASCII (trusted) -/
+def TokensOk (tk : Tokens) : Prop :=
+  (∀ n, ∀ c ∈ tk.int n, Printable c) ∧ (∀ n, ∀ c ∈ tk.num n, Printable c) ∧ (∀ c ∈ tk.obj, Printable c)
+
+theorem renderJV_printable (tk : Tokens) (htk : TokensOk tk) (v : JV) : ∀ c ∈ renderJV true tk v, Printable c := by
+  cases v with
+  | str s => exact renderStr_printable s
+  | int n => exact htk.1 n
+  | num m => exact htk.2.1 m
+  | bool b =>
+    cases b <;> (intro c hc; simp only [renderJV, List.mem_cons, List.mem_nil_iff, or_false] at hc)
+    · rcases hc with rfl | rfl | rfl | rfl | rfl <;> decide
+    · rcases hc with rfl | rfl | rfl | rfl <;> decide
+  | obj => exact htk.2.2
+  | null =>
+    intro c hc
+    simp only [renderJV, List.mem_cons, List.mem_nil_iff, or_false] at hc
+    rcases hc with rfl | rfl | rfl | rfl <;> decide
+
+theorem pair_printable (tk : Tokens) (htk : TokensOk tk) (k : Key) (v : JV) :
+    ∀ c ∈ renderStr true k.name.toList ++ [':', ' '] ++ renderJV true tk v, Printable c := by
+  intro c hc
+  rcases List.mem_append.mp hc with h | h
+  · rcases List.mem_append.mp h with h | h
+    · exact renderStr_printable _ c h
+    · exact two_printable (by decide) (by decide) c h
+  · exact renderJV_printable tk htk v c h
+
+theorem renderFields_printable (tk : Tokens) (htk : TokensOk tk) :
+    ∀ l : List (Key × JV), ∀ c ∈ renderFields true tk l, Printable c := by
+  intro l
+  induction l with
+  | nil => intro c hc; simp [renderFields] at hc
+  | cons p r ih =>
+    obtain ⟨k, v⟩ := p
+    cases r with
+    | nil => exact pair_printable tk htk k v
+    | cons q r' =>
+      intro c hc
+      simp only [renderFields] at hc
+      rcases List.mem_append.mp hc with h | h
+      · rcases List.mem_append.mp h with h | h
+        · exact pair_printable tk htk k v c h
+        · exact two_printable (by decide) (by decide) c h
+      · exact ih c h
+
+theorem printable_not_boundary {c : Char} (h : Printable c) : Spec.isLineBoundary c = false := by
+  unfold Printable at h
+  simp only [Spec.isLineBoundary, Bool.or_eq_false_iff, beq_eq_false_iff_ne, ne_eq]
+  refine ⟨⟨⟨⟨⟨⟨⟨⟨⟨?_, ?_⟩, ?_⟩, ?_⟩, ?_⟩, ?_⟩, ?_⟩, ?_⟩, ?_⟩, ?_⟩ <;> omega
+
 end Aux
 
 /-! ## Property theorems (obligations) -/
@@ -1875,5 +1996,29 @@ theorem C34_keys (env : Env) (amb : Ambient) (s : Site) (r : Record) :
       (∀ k, ((sentinel r).get k).isSome = true → k ∈ G.sentinelBase ++ G.sentinelCond) ∧
       (∀ k ∈ G.sentinelBase, ((sentinel r).get k).isSome = true) :=
   ⟨emit_keys env amb s, emit_base env amb s, sentinel_keys r, sentinel_base r⟩
+
+/-- **one physical line**: whatever a record carries — any exception text, method name, principal …, with any Unicode line
+or paragraph separator, NEL, VT, FF, FS/GS/RS in it — and whatever the formatter shed, the text written for it contains no
+character at which `str.splitlines()` (the shipped validator's reader) or any narrower line reader cuts: every character is
+printable ASCII.  So a record can never be broken into fragments and lost to the reader.  (`TokensOk`: numbers and the nested
+claims object print as ASCII — trusted.) -/
+theorem C34_one_line (tk : Tokens) (htk : TokensOk tk) (fits : Record → Bool) (r : Record) :
+    Spec.OneLine (renderLine tk (format fits r)) ∧ Spec.OneLine (renderLine tk r) := by
+  have key : ∀ r : Record, Spec.OneLine (renderLine tk r) := by
+    intro r c hc
+    apply printable_not_boundary
+    simp only [renderLine, jsonAscii, List.mem_append, List.mem_singleton] at hc
+    rcases hc with (rfl | h) | rfl
+    · decide
+    · exact renderFields_printable tk htk _ c h
+    · decide
+  exact ⟨key _, key r⟩
+
+example : TokensOk ⟨fun _ => ['0'], fun _ => ['0', '.', '0'], ['{', '}']⟩ := by
+  refine ⟨fun _ c hc => ?_, fun _ c hc => ?_, fun c hc => ?_⟩ <;>
+    (simp only [List.mem_cons, List.mem_nil_iff, or_false] at hc)
+  · subst hc; decide
+  · rcases hc with rfl | rfl | rfl <;> decide
+  · rcases hc with rfl | rfl <;> decide
 
 end VgiVerif.C34
